@@ -1,6 +1,7 @@
 //! Reference models used as oracles by the deterministic-simulation harness.
 //! Nothing in this crate depends on (or is derived from) the code under test.
 pub mod mem;
+pub mod screen;
 pub mod tape;
 pub mod ula;
 pub mod z80;
